@@ -781,3 +781,145 @@ Proof.
     exists cell. split; [exact Hrt|].
     destruct Hs as [Hs | Hs]; rewrite Hs in Hcv; cbn in Hcv; inversion Hcv; reflexivity.
 Qed.
+
+(* ================================================================== *)
+(* 6. a concrete stopped program (non-vacuity and refutations)         *)
+
+(* TYPE pt: x AS INTEGER, y AS LONG.   DIM SHARED g%.   CONST c% = 7.
+   main:  a%, b%, u!, v!, arr(1 TO 2, 0 TO 1) AS LONG, p AS pt
+   SUB (code 100..200) with parameter q% (by reference to a%), locals lq AS pt, w AS DOUBLE,
+   and STATIC st% (globals cell 1, not in the debugger's global_vars) *)
+Definition n_a : str := [97; 37].       Definition n_b : str := [98; 37].
+Definition n_u : str := [117; 33].      Definition n_v : str := [118; 33].
+Definition n_arr : str := [97; 114; 114].  Definition n_p : str := [112].
+Definition n_g : str := [103; 37].      Definition n_q : str := [113; 37].
+Definition n_lq : str := [108; 113].    Definition n_w : str := [119].
+Definition n_c : str := [99; 37].       Definition n_st : str := [115; 116; 37].
+Definition n_x : str := [120].          Definition n_y : str := [121].
+Definition n_pt : str := [112; 116].
+
+Definition ex_env : renv := [(n_pt, [(n_x, TBuiltin 1); (n_y, TBuiltin 2)])].
+Definition ex_main : routine :=
+  mkRoutine 0 0 []
+    [(n_a, TBuiltin 1); (n_b, TBuiltin 1); (n_u, TBuiltin 3); (n_v, TBuiltin 3);
+     (n_arr, TArray [(1, 2); (0, 1)] (TBuiltin 2)); (n_p, TRecord n_pt)] [].
+Definition ex_sub : routine :=
+  mkRoutine 100 200 [(n_q, TBuiltin 1)] [(n_lq, TRecord n_pt); (n_w, TBuiltin 4)] [].
+Definition ex_di : dbginfo :=
+  mkDI ex_env [(n_g, TBuiltin 1)] [(n_c, Some (PInt 7))] ex_main [ex_sub].
+
+Definition f15 : fl := FFin false 3 (-1).
+Definition ex_globals : seg := mkSeg [Some (CI 11); Some (CI 5)] SGlobals.
+Definition ex_mainframe : seg :=
+  mkSeg [Some (CI 3); Some (CI 4); Some (CS f15); Some (CS f_1_6);
+         None; Some (CL 2); Some (CL 1); Some (CL 1); Some (CL 2); Some (CL 0); Some (CL 1);
+         Some (CL 10); Some (CL 11); Some (CL 20); None;
+         Some (CI 8); Some (CL 9)] (SFrame None 10 0 17).
+Definition ex_subframe : seg :=
+  mkSeg [Some (CRef 1 0); Some (CI 40); Some (CL 41); Some (CD f_0_1)] (SFrame (Some 1) 105 50 4).
+Definition ex_state (c : option Z) : st :=
+  mkSt 60 0 [] [ex_globals; ex_mainframe; ex_subframe] c false H_NONE None true TNone false 0 false 0 0 None
+       Fold.empty_script [].
+Definition in_main : st := ex_state (Some 1).
+Definition in_sub : st := ex_state (Some 2).
+Definition finished : st := ex_state None.
+
+Definition lv (n : str) : dexpr := ELv n [] [].
+
+(* what works *)
+Example ex_values :
+  dbg_print ex_di in_main (lv n_a) = DVal (PInt 3) /\
+  dbg_print ex_di in_main (lv n_g) = DVal (PInt 11) /\
+  dbg_print ex_di in_main (lv n_c) = DVal (PInt 7) /\
+  dbg_print ex_di in_main (ELv n_arr [ilit 2; ilit 0] []) = DVal (PInt 20) /\
+  dbg_print ex_di in_main (ELv n_arr [ilit 2; ilit 1] []) = DVal (PInt 0) /\
+  dbg_print ex_di in_main (ELv n_arr [ilit 3; ilit 0] []) = DEvalError /\
+  dbg_print ex_di in_main (ELv n_arr [ilit 1] []) = DEvalError /\
+  dbg_print ex_di in_main (ELv n_p [] [n_y]) = DVal (PInt 9) /\
+  dbg_print ex_di in_main (EBin OAdd (lv n_a) (EBin OMul (lv n_b) (ENum 1 (PInt 2)))) = DVal (PInt 11) /\
+  dbg_print ex_di in_main (lv n_q) = DEvalError /\
+  dbg_print ex_di in_sub (lv n_q) = DVal (PInt 3) /\
+  dbg_print ex_di in_sub (lv n_g) = DVal (PInt 11) /\
+  dbg_print ex_di in_sub (lv n_a) = DEvalError.
+Proof. vm_compute. repeat split; reflexivity. Qed.
+
+(* D01 inherited from the folder: 1.5 < 1.6 on two SINGLE variables prints 0;
+   the program computes -1 (FoldProofs.fold_cmp_float_refuted) *)
+Theorem cmp_float_refuted :
+  dbg_print ex_di in_main (EBin OLt (lv n_u) (lv n_v)) = DVal (PInt 0) /\
+  rt_eval (CBin OLt (CNum 3 (PFlt f15)) (CNum 3 (PFlt f_1_6))) = RVal (CI (-1)).
+Proof. split; [vm_compute; reflexivity | exact (proj2 fold_cmp_float_refuted)]. Qed.
+
+(* D43: exceptions other than EvalError escape do_print *)
+Theorem crash_refuted :
+  dbg_print ex_di in_main (EBin OIntdiv (lv n_a) (ENum 1 (PInt 0))) = DCrash K_ZERODIV /\
+  dbg_print ex_di in_main (EBin OMul (lv n_a) (ENum 1 (PInt 20000))) = DCrash K_OVERFLOW /\
+  dbg_print ex_di in_main (EBin ODiv (ENum 1 (PInt 1)) (ENum 1 (PInt 3))) = DCrash K_OVERFLOW /\
+  dbg_print ex_di in_main (ELv n_c [ilit 1] []) = DCrash K_VALUE /\
+  dbg_print ex_di in_main (EBin OAdd (ELv n_a [] [n_x]) (ENum 1 (PInt 1))) = DCrash K_COMPILE /\
+  dbg_print ex_di finished (lv n_a) = DCrash K_ATTR.
+Proof. vm_compute. repeat split; reflexivity. Qed.
+
+(* STATIC variables are not in the debugger's global_vars: the program reads
+   globals cell 1 (value 5), the debugger reports an unknown variable *)
+Theorem static_refuted : forall m,
+  exec m (IRead false 1 1) in_sub = R tt (set_stack in_sub (CI 5 :: stack in_sub)) /\
+  dbg_print ex_di in_sub (lv n_st) = DEvalError.
+Proof. intro m. split; [reflexivity | vm_compute; reflexivity]. Qed.
+
+(* names are TYPED in the main routine whatever the current frame: the field
+   y of the SUB's local record lq (cell 2, value 41) is shown as the content
+   of cell 1 (the value of lq.x), the DOUBLE local w is added as a SINGLE *)
+Theorem typed_in_main_refuted : forall m,
+  exec m (IReadidx true 2 1 1) in_sub = R tt (set_stack in_sub (CL 41 :: stack in_sub)) /\
+  dbg_print ex_di in_sub (ELv n_lq [] [n_y]) = DVal (PInt 40) /\
+  dtype ex_di (lv n_w) = Some 3.
+Proof. intro m. split; [reflexivity | split; [vm_compute; reflexivity | reflexivity]]. Qed.
+
+(* a field or a subscript on a scalar is ignored instead of being rejected *)
+Theorem scalar_path_refuted :
+  dbg_print ex_di in_main (ELv n_a [] [n_x]) = DVal (PInt 3) /\
+  dbg_print ex_di in_main (ELv n_a [ilit 1] []) = DVal (PInt 3).
+Proof. vm_compute. split; reflexivity. Qed.
+
+(* the general theorems instantiated on the example (premises are satisfiable) *)
+Lemma ex_in_frame : in_frame in_main 1 ex_mainframe 10.
+Proof. unfold in_frame. repeat split; try reflexivity; try lia. exists None, 0, 17. reflexivity. Qed.
+
+Example ex_local_scalar : forall m,
+  dbg_print ex_di in_main (lv n_b) = DVal (PInt 4) /\
+  exec m (IRead true 1 1) in_main = R tt (set_stack in_main (CI 4 :: stack in_main)).
+Proof.
+  intro m.
+  assert (P1 : not_const ex_di 10 n_b) by (split; reflexivity).
+  exact (local_scalar_agrees ex_di m in_main 1 ex_mainframe 10 n_b 1 1 (CI 4) ex_in_frame P1
+           eq_refl eq_refl eq_refl ltac:(lia) eq_refl eq_refl).
+Qed.
+
+Example ex_element : forall m s1 rest,
+  heap s1 = heap in_main -> stack s1 = CRef 1 4 :: CL 0 :: CL 2 :: rest ->
+  dbg_print ex_di in_main (ELv n_arr [ilit 2; ilit 0] []) = DVal (PInt 20) /\
+  exec m (IArridx 2) s1 = R tt (set_stack s1 (CRef 1 13 :: rest)).
+Proof.
+  intros m s1 rest Hh Hst.
+  assert (P1 : not_const ex_di 10 n_arr) by (split; reflexivity).
+  assert (P2 : has_header (s_cells ex_mainframe) 4 1 [(1, 2); (0, 1)]).
+  { unfold has_header. split; [reflexivity|]. split; [reflexivity|].
+    intros k lb ub Hk. destruct k as [|[|k]]; simpl in Hk; try (destruct k; discriminate Hk);
+      inversion Hk; subst; split; reflexivity. }
+  assert (P3 : [(1, 2); (0, 1)] <> ([] : list (Z * Z))) by discriminate.
+  assert (P4 : Forall (fun b : Z * Z => fst b <= snd b) [(1, 2); (0, 1)]) by (repeat constructor; simpl; lia).
+  assert (P5 : 4 + header_size [(1, 2); (0, 1)] + array_cells 1 [(1, 2); (0, 1)]
+               <= Z.of_nat (length (s_cells ex_mainframe))) by (cbv; intro H; discriminate H).
+  destruct (element_agrees_in_segment ex_di m in_main 1 ex_mainframe 10 n_arr [(1, 2); (0, 1)] 2 4 1
+              [(1, 2); (0, 1)] [2; 0] 13 (CL 20) ex_in_frame P1 eq_refl eq_refl eq_refl ltac:(lia) eq_refl
+              P2 P3 P4 ltac:(lia) P5 eq_refl eq_refl eq_refl) as [H1 H2].
+  split; [exact H1|]. destruct (H2 s1 rest Hh Hst) as [H3 _]. exact H3.
+Qed.
+
+Example ex_int_binop :
+  exists cell, dbg_print ex_di in_main (EBin OMul (lv n_a) (lv n_b)) = DVal (PInt 12) /\
+               rt_eval (CBin OMul (CNum 1 (PInt 3)) (CNum 1 (PInt 4))) = RVal cell /\ pv_of cell = PInt 12.
+Proof.
+  exists (CI 12). vm_compute. repeat split; reflexivity.
+Qed.
